@@ -6,6 +6,7 @@ import (
 	"fmt"
 	"os"
 	"path/filepath"
+	"runtime"
 	"sort"
 	"strconv"
 	"strings"
@@ -282,6 +283,20 @@ func decide(p *Property, runs []*configRun, findings []Finding, tier string, see
 		}
 	}
 	// a file no configuration includes fails every check
+	{
+		seenNB := map[string]bool{}
+		for _, cr := range runs {
+			if cr.Err != nil || cr.An == nil {
+				continue
+			}
+			for _, u := range cr.An.P.NeverBuilt {
+				if !seenNB[u] {
+					seenNB[u] = true
+					all = append(all, Obligation{Rule: "LOAD", Key: "never-built/" + u, Pos: u, Outcome: Discharged, Config: "all", Detail: "excluded on every platform by a Go release constraint that the installed toolchain (" + runtime.Version() + ") does not meet: no build made here compiles this file"})
+				}
+			}
+		}
+	}
 	for _, u := range neverAnalysed(runs) {
 		all = append(all, Obligation{Rule: "LOAD", Key: "unanalysed/" + u, Pos: u, Outcome: Undecided, Config: "all", Detail: "source file is not part of any analysed build configuration"})
 	}
